@@ -29,7 +29,7 @@ class Ctx:
             d = self.facts_override.get(config) if self.facts_override else None
             if d is None:
                 d = extract.facts_dir(config)
-            P = Program(d)
+            P = load_program(d)
             self._programs[config] = P
             self.analysed[config] = {"crates": P.crates, "functions": len(P.fns), "adts": len(P.adts),
                                      "impls": len(P.impls), "facts_dir": os.path.basename(d)}
@@ -56,6 +56,27 @@ class Ctx:
 
     def note(self, s):
         self.notes.append(s)
+
+
+def load_program(d):
+    """Program for a facts directory, cached as a pickle next to the JSON files (same content, faster to load)"""
+    import pickle
+    pk = os.path.join(d, "program.pkl")
+    if os.path.exists(pk):
+        try:
+            with open(pk, "rb") as fh:
+                return pickle.load(fh)
+        except Exception:
+            pass
+    P = Program(d)
+    try:
+        tmp = pk + ".tmp%d" % os.getpid()
+        with open(tmp, "wb") as fh:
+            pickle.dump(P, fh, protocol=pickle.HIGHEST_PROTOCOL)
+        os.replace(tmp, pk)
+    except Exception:
+        pass
+    return P
 
 
 def load_known():
